@@ -10,7 +10,8 @@ ENGINE = 'verus'
 CLASS = 'U'
 DOC = ('extract_range_predicate (recursive over the real Expression AST, every AND nesting depth) is SOUND: every non-NULL column value that makes the '
        'WHERE expression TRUE lies in the extracted range; it is EXACT on the leaf forms (col op literal, literal op col, BETWEEN); and whenever '
-       'where_clause_fully_satisfied_by_index lets the executor SKIP the WHERE re-check, the extracted range selects exactly the TRUE set (lemma).')
+       'where_clause_fully_satisfied_by_index lets the executor SKIP the WHERE re-check, the extracted range selects exactly the TRUE set (lemma) - over ALL '
+       'keys of the index, the NULL keys included (a range without a lower bound returns them, so the re-check is never skipped for one).')
 
 TEMPLATE = r'''
 #![feature(allocator_api)]
@@ -120,7 +121,7 @@ pub open spec fn pred_keys_nonnull(p: IndexPredicate) -> bool {
 pub open spec fn skip_shape(e: Expression, c: &str, p: IndexPredicate) -> bool {
     ||| (cmp_shape(e, c) && e->BinaryOp_op is Equal && (p matches IndexPredicate::Range(rp) && rp.start is Some && rp.end is Some && rp.inclusive_start && rp.inclusive_end))
     ||| (e matches Expression::Between { expr, negated, symmetric, .. } && !negated && !symmetric && is_col(*expr, c) && (p matches IndexPredicate::Range(rp) && rp.start is Some && rp.end is Some && rp.inclusive_start && rp.inclusive_end))
-    ||| (cmp_shape(e, c) && range_op(e->BinaryOp_op) && p is Range)
+    ||| (cmp_shape(e, c) && range_op(e->BinaryOp_op) && (p matches IndexPredicate::Range(rp) && rp.start is Some))
     ||| (e matches Expression::BinaryOp { op: BinaryOperator::And, left, right } && is_range_binop(*left) && is_range_binop(*right)
             && (p matches IndexPredicate::Range(rp) && rp.start is Some && rp.end is Some))
     ||| (e is InList && p is In)
@@ -156,6 +157,34 @@ proof fn lemma_skip_is_exact(e: Expression, c: &str, rp: RangePredicate)
     }
 }
 
+/// the keys an index holds include NULL: rows whose indexed cell IS NULL are indexed under [Null] (index_maintenance), and Null is the LEAST
+/// key of SqlValue::Ord - a range scan with an unbounded start returns them whatever the end bound is; a bounded start excludes them
+pub open spec fn key_in_range(r: RangePredicate, k: SqlValue) -> bool {
+    match k { SqlValue::Null => r.start is None, SqlValue::V(v) => in_range(r, v) }
+}
+/// three-valued WHERE on the indexed cell: on a NULL cell every expression of the fragment (comparisons, BETWEEN, AND of those) is UNKNOWN or
+/// FALSE, never TRUE (SQL: a comparison with a NULL operand is UNKNOWN; UNKNOWN AND x is not TRUE)   -- from the standard, not from the code
+pub open spec fn where_true(e: Expression, c: &str, k: SqlValue) -> Option<bool> {
+    match k {
+        SqlValue::Null => if holds(e, c, arbitrary()) is Some { Some(false) } else { None },
+        SqlValue::V(v) => holds(e, c, v),
+    }
+}
+/// THE C02/C06 clause over ALL keys, NULL included: if the re-check is skipped, every key the range scan returns makes WHERE TRUE.
+/// (`a < 5` has no lower bound, its scan returns the NULL keys: the re-check may not be skipped for it.)
+proof fn lemma_skip_is_exact_all_keys(e: Expression, c: &str, rp: RangePredicate, k: SqlValue)
+    requires
+        skip_shape(e, c, IndexPredicate::Range(rp)),
+        extract_post(e, c, Some(rp)),
+        where_true(e, c, k) is Some,
+        key_in_range(rp, k),
+    ensures
+        where_true(e, c, k) == Some(true),
+{
+    lemma_skip_is_exact(e, c, rp);
+    assert(rp.start is Some);
+}
+
 fn canary_skip(where_expr: &Expression, indexed_column: &str, index_predicate: &Option<IndexPredicate>)
 {
     let r = where_clause_fully_satisfied_by_index(where_expr, indexed_column, index_predicate);
@@ -163,6 +192,11 @@ fn canary_skip(where_expr: &Expression, indexed_column: &str, index_predicate: &
 }
 proof fn canary_lemma(e: Expression, c: &str, rp: RangePredicate)
     requires skip_shape(e, c, IndexPredicate::Range(rp)), extract_post(e, c, Some(rp)),
+{
+    assert(false); // CANARY
+}
+proof fn canary_lemma_all_keys(e: Expression, c: &str, rp: RangePredicate, k: SqlValue)
+    requires skip_shape(e, c, IndexPredicate::Range(rp)), extract_post(e, c, Some(rp)), where_true(e, c, k) is Some, key_in_range(rp, k),
 {
     assert(false); // CANARY
 }
@@ -241,13 +275,15 @@ OBLIGATIONS = {
     'extract_index_predicate': ['post:index_keys_never_null', 'safety:no_panic', 'proof:loop_invariant_and_termination'],
     'where_clause_fully_satisfied_by_index': ['post:true_only_for_the_checked_shapes', 'safety:no_panic'],
     'lemma_skip_is_exact': ['post:skipping_the_where_recheck_is_exact'],
+    'lemma_skip_is_exact_all_keys': ['post:skipping_the_where_recheck_is_exact_for_null_keys_too'],
     'is_column_reference': ['post:is_named_column'],
     'extract_range_predicate': ['post:sound_for_every_and_nesting.exact_on_leaves.none_for_unrecognised.and_of_two_bounds_exact', 'safety:no_panic_unreachable_arms_unreachable', 'proof:termination_structural'],
 }
-CANARIES = ['canary_extract', 'canary_skip', 'canary_lemma']
+CANARIES = ['canary_extract', 'canary_skip', 'canary_lemma', 'canary_lemma_all_keys']
 TRUSTED = list(_ast.AST_TRUSTED) + [
     'R3: x.as_ref() on Box<Expression> rewritten to &**x',
     'external_body opt_val_eq: Option<SqlValue> equality in the Equal arm of where_clause_fully_satisfied_by_index, result uninterpreted (only strengthens the check)',
     'holds(): the reference semantics of the WHERE fragment (col op literal, literal op col, BETWEEN [SYMMETRIC], AND) on a non-NULL column value; everything else is outside the fragment (nothing claimed). BETWEEN SYMMETRIC is given its SQL meaning, so a range extracted from it must be sound for it and the WHERE re-check may not be skipped for it',
-    'IndexData::range_scan (BTreeMap::range) implementing in_range on normalised keys is not under contract (see I-kernels for the bound arithmetic)',
+    'IndexData::range_scan (BTreeMap::range) implementing key_in_range on normalised keys (NULL keys returned exactly when the start is unbounded: Null is the least key) is not under contract (see I-kernels for the bound arithmetic)',
+    'where_true on a NULL cell: Some(false) for every expression of the fragment (SQL three-valued logic), so the skip lemma also covers the rows whose indexed cell IS NULL',
 ]
